@@ -50,19 +50,21 @@ def indexed(ctx, d, stats):
   from vizier.service import pyvizier as svz
   res, recs = ssutil.run_mode('indexed', d)
   svc = world.make_servicer(None)
-  for r in recs:
+  # base names a user may pick: anything without parentheses is a legal base name of an indexed parameter
+  bases = ['x', 'encoder-units', 'a/b', 'lr rate', 'ns:x', 'x.y', 'x_1']
+  for r, base in [(r, b) for r in recs for b in bases]:
     n = r['n']
     sc = svz.StudyConfig()
     for i in range(n):
-      sc.search_space.root.add_float_param('x', 0.0, 20.0, index=i)
+      sc.search_space.root.add_float_param(base, 0.0, 20.0, index=i)
     sc.metric_information.append(vz.MetricInformation('a', goal=vz.ObjectiveMetricGoal.MAXIMIZE))
     sc.algorithm = 'RANDOM_SEARCH'
-    st = svc.CreateStudy(vs.CreateStudyRequest(parent='owners/c17i', study=study_pb2.Study(display_name='n%d' % n, study_spec=sc.to_proto())))
+    st = svc.CreateStudy(vs.CreateStudyRequest(parent='owners/c17i', study=study_pb2.Study(display_name='n%d_%d' % (n, bases.index(base)), study_spec=sc.to_proto())))
     t = study_pb2.Trial()
     for i in reversed(range(n)):
-      t.parameters.add(parameter_id='x[%d]' % i).value.number_value = float(i)
+      t.parameters.add(parameter_id='%s[%d]' % (base, i)).value.number_value = float(i)
     stored = svc.CreateTrial(vs.CreateTrialRequest(parent=st.name, trial=t))
-    exp = {'x': r['values']}
+    exp = {base: r['values']}
     for api in ('clients.Trial.parameters', 'StudyConfig.trial_parameters'):
       stats['indexed_reads'] += 1
       try:
@@ -72,9 +74,105 @@ def indexed(ctx, d, stats):
           got = dict(sc.trial_parameters(svc.GetTrial(vs.GetTrialRequest(name=stored.name))))
       except Exception as e:  # pylint: disable=broad-except
         got = 'raised %s' % type(e).__name__
-      if not (isinstance(got, dict) and set(got) == {'x'} and same(exp['x'], list(got['x']) if isinstance(got['x'], (list, tuple)) else got['x'])):
-        ctx.violation({'via': 'present', 'api': api, 'what': 'indexed-order', 'n': n},
-                      {'kind': 'present', 'n': n, 'expected': exp, 'observed': repr(got)})
+      if not (isinstance(got, dict) and set(got) == {base} and same(exp[base], list(got[base]) if isinstance(got[base], (list, tuple)) else got[base])):
+        ctx.violation({'via': 'present', 'api': api, 'what': 'indexed-order', 'n': n, 'plain_base_name': base == 'x'},
+                      {'kind': 'present', 'n': n, 'base_name': base, 'expected': exp, 'observed': repr(got)})
+
+
+def _read(api, svc, name, sc, stored):
+  from vizier._src.service import clients
+  from vizier._src.service import vizier_client
+  from vizier._src.service import vizier_service_pb2 as vs
+  try:
+    if api == 'clients.Trial.parameters':
+      return dict(clients.Trial(vizier_client.VizierClient(name, 'c', svc), int(stored.id)).parameters), None
+    return dict(sc.trial_parameters(svc.GetTrial(vs.GetTrialRequest(name=stored.name)))), None
+  except Exception as e:  # pylint: disable=broad-except
+    return None, '%s: %s' % (type(e).__name__, str(e)[:80])
+
+
+def _store(svc, name, tree, r):
+  from vizier._src.service import study_pb2
+  from vizier._src.service import vizier_service_pb2 as vs
+  t = study_pb2.Trial()
+  for i, node in enumerate(tree):
+    if r['trial'][i] == '':
+      continue
+    p = t.parameters.add(parameter_id=ssutil.real_name(node['name']))
+    val = ssutil.value_of(node['kind'], r['trial'][i])
+    if isinstance(val, str):
+      p.value.string_value = val
+    else:
+      p.value.number_value = float(val)
+  return svc.CreateTrial(vs.CreateTrialRequest(parent=name, trial=t))
+
+
+def recreated(ctx, recs, stats):
+  """The declared types are those of the study the trial belongs to NOW: a study deleted and created again under the same
+  name with another search space (study ids are display names) presents its trials through the new space."""
+  import world
+  from vizier import pyvizier as vz
+  from vizier._src.service import study_pb2
+  from vizier._src.service import vizier_service_pb2 as vs
+  from vizier.service import pyvizier as svz
+  svc = world.make_servicer(None)
+  by_tree = collections.OrderedDict()
+  for r in recs:
+    if r['ok'] and any(v != '' for v in r['trial']):
+      by_tree.setdefault(json.dumps(r['tree'], sort_keys=True), []).append(r)
+  picks = [rs[len(rs) // 3] for rs in by_tree.values()] + [rs[(2 * len(rs)) // 3] for rs in by_tree.values()]
+  prev = None
+  for r in picks + picks[:1]:
+    sc = svz.StudyConfig()
+    sc.search_space = ssutil.build_space(r['tree'])
+    sc.metric_information.append(vz.MetricInformation('a', goal=vz.ObjectiveMetricGoal.MAXIMIZE))
+    sc.algorithm = 'RANDOM_SEARCH'
+    if prev is not None:
+      svc.DeleteStudy(vs.DeleteStudyRequest(name=prev))
+    st = svc.CreateStudy(vs.CreateStudyRequest(parent='owners/c17r', study=study_pb2.Study(display_name='recycled', study_spec=sc.to_proto())))
+    if prev is not None and st.name != prev:
+      raise tlc.MachineryError('re-created study got another name: %s vs %s' % (st.name, prev))
+    prev = st.name
+    stored = _store(svc, st.name, r['tree'], r)
+    exp = expected_mapping(r['tree'], r)
+    for api in ('clients.Trial.parameters', 'StudyConfig.trial_parameters'):
+      got, err = _read(api, svc, st.name, sc, stored)
+      stats['reads_after_recreation'] += 1
+      if not (got is not None and set(got) == set(exp) and all(same(exp[k], got[k]) for k in exp)):
+        ctx.violation({'via': 'present', 'api': api, 'what': 'presented-through-a-deleted-study', 'error': bool(err)},
+                      {'kind': 'present-recreated', 'tree': r['tree'], 'stored': r['trial'], 'expected': exp, 'observed': repr(got), 'error': err})
+
+
+def near_integer_discrete(ctx, stats):
+  """Other concretisations of the catalog's kind S ("a discrete parameter with a non-integer point", declared FLOAT): the
+  non-integer point sits within 1e-6 of an integer.  INTEGER is declared only when EVERY feasible value is an integer
+  exactly ("castable without losing precision"); each stored value is presented as a float equal to what was stored."""
+  import world
+  from vizier import pyvizier as vz
+  from vizier._src.service import study_pb2
+  from vizier._src.service import vizier_service_pb2 as vs
+  from vizier.service import pyvizier as svz
+  svc = world.make_servicer(None)
+  sets = [[1e-9, 1e-8, 1e-7], [0.9999999, 2.0], [1.0000001, 3.0], [2.0, 4.000000001], [-1.0000001, 1.0], [1.0, 2.0, 3.0], [1e-9, 1.0]]
+  for k, feas in enumerate(sets):
+    sc = svz.StudyConfig()
+    sc.search_space.root.add_discrete_param('d', feas)
+    sc.metric_information.append(vz.MetricInformation('a', goal=vz.ObjectiveMetricGoal.MAXIMIZE))
+    sc.algorithm = 'RANDOM_SEARCH'
+    st = svc.CreateStudy(vs.CreateStudyRequest(parent='owners/c17n', study=study_pb2.Study(display_name='near%d' % k, study_spec=sc.to_proto())))
+    all_int = all(float(v) == round(v) for v in feas)
+    for v in feas:
+      t = study_pb2.Trial()
+      t.parameters.add(parameter_id='d').value.number_value = v
+      stored = svc.CreateTrial(vs.CreateTrialRequest(parent=st.name, trial=t))
+      for api in ('clients.Trial.parameters', 'StudyConfig.trial_parameters'):
+        got, err = _read(api, svc, st.name, sc, stored)
+        stats['near_integer_reads'] += 1
+        ok = got is not None and set(got) == {'d'} and got['d'] == v and (isinstance(got['d'], int) if all_int else isinstance(got['d'], float)) \
+            and not isinstance(got['d'], bool)
+        if not ok:
+          ctx.violation({'via': 'present', 'api': api, 'what': 'near-integer-discrete', 'all_feasible_values_integers': all_int},
+                        {'kind': 'present-near-integer', 'feasible': feas, 'stored': v, 'observed': repr(got), 'error': err})
 
 
 def run(ctx):
@@ -165,6 +263,8 @@ def run(ctx):
     ctx.sample({'tree': [(n['name'], n['kind'], n['parent'], n['pv']) for n in ok_recs[len(ok_recs) // 2]['tree']],
                 'stored': ok_recs[len(ok_recs) // 2]['trial'], 'presented': expected_mapping(ok_recs[len(ok_recs) // 2]['tree'], ok_recs[len(ok_recs) // 2])})
     indexed(ctx, d, stats)
+    recreated(ctx, recs, stats)
+    near_integer_discrete(ctx, stats)
   presentable = sum(1 for r in recs if r['ok'])
   ctx.coverage.update({'states': res.distinct, 'transitions': res.distinct, 'traces_validated_against_impl': stats['reads'],
                        'evaluations': stats['reads'], 'distinct_nontrivial': len(recs), 'exhaustive': True,
